@@ -112,13 +112,14 @@ func runC09(env core.Env, rep *core.Report) {
 				if env.ShardN > 1 && job%env.ShardN != env.ShardI {
 					continue
 				}
-				c09config(rep, useAuth, prof, metricsOn)
+				// (the admin token alternates between the default and one shaped like an issued token)
+				c09config(rep, useAuth, prof, metricsOn, adminTokens[job%len(adminTokens)])
 			}
 		}
 	}
 }
 
-func c09config(rep *core.Report, useAuth, prof, metricsOn bool) {
+func c09config(rep *core.Report, useAuth, prof, metricsOn bool, adminToken string) {
 	cfgName := fmt.Sprintf("use_auth=%v profiling=%v metrics=%v", useAuth, prof, metricsOn)
 	viol := func(kind, what string, exp, obs any) {
 		rep.Violate(core.Violation{Kind: kind, What: cfgName + ": " + what, Replay: map[string]any{"engine": "apiwalk", "property": "C09", "config": cfgName, "request": what}, Expected: exp, Observed: obs})
@@ -126,6 +127,9 @@ func c09config(rep *core.Report, useAuth, prof, metricsOn bool) {
 	path := core.NewStoreFile()
 	rig := core.OpenRig(path, core.RigOpts{Trace: true, Cfg: func(c *config.AppConfig) {
 		c.HTTP.UseAuth = useAuth
+		if adminToken != "" {
+			c.HTTP.AuthToken = adminToken
+		}
 		c.HTTP.ProfilingEndpointsEnabled = prof
 		c.Metrics.Enabled = metricsOn
 	}})
@@ -140,11 +144,15 @@ func c09config(rep *core.Report, useAuth, prof, metricsOn bool) {
 		r := api.Do("POST", "/api/v1/access", nil, adminHdr(rig))
 		var t struct{ Token string }
 		if r.Code != 200 || !r.JSON(&t) || t.Token == "" {
-			rep.HarnessError("cannot create token: " + fmt.Sprint(r.Code, string(r.Body)))
+			// the configured admin token must be accepted on the admin routes, whatever it looks like
+			viol("auth.admin_token_rejected", "POST /access with the configured admin token", 200, fmt.Sprint(r.Code, " ", trunc(r.Body)))
 		}
 		return t.Token
 	}
 	e.user, e.revoked = mk(), mk()
+	if e.user == "" || e.revoked == "" {
+		return
+	}
 	for _, tok := range []string{e.user, e.revoked} {
 		if r := api.Do("GET", "/api/v1/chain/tip/longest", nil, map[string]string{"Authorization": "Bearer " + tok}); r.Code != 200 {
 			rep.HarnessError("a fresh token does not authenticate: " + fmt.Sprint(r.Code))
